@@ -117,6 +117,12 @@ class Choice(Domain):
 # ------------------------------------------------------------------ registry
 HARNESSES = {}
 CONTRACTS = {}
+PROPERTY_LEVEL = {}
+
+
+def property_level(prop, level, why):
+    """cap the evidence level of a property whose main clause is only covered by bounded checks"""
+    PROPERTY_LEVEL[prop] = (level, why)
 
 
 class Harness:
